@@ -173,8 +173,6 @@ package analyzer
 //@   ensures fresh(result)
 //@ trusted CollectAccountCounts
 //@   ensures fresh(result)
-//@ trusted CollectPayeeCounts
-//@   ensures fresh(result)
 //@ trusted CollectCommodityCounts
 //@   ensures fresh(result)
 //@ trusted CollectTagCounts
@@ -201,3 +199,39 @@ package analyzer
 //@   loop 3 invariant 0 - 1 <= rangeindex && rangeindex <= len(journal.Transactions) - 1 && result != nil && fresh(result) && declaredAccounts != nil && declaredCommodities != nil && fresh(declaredAccounts) && fresh(declaredCommodities)
 //@   loop 3 invariant forall k string :: {declaredAccounts[k]} declaredAccounts[k] <==> (declAcc(journal, k) || has(external.Accounts, k))
 //@   loop 3 invariant forall k string :: {declaredCommodities[k]} declaredCommodities[k] <==> (declCom(journal, k) || has(external.Commodities, k))
+
+// ---- C15 / C16: usage counts over the include tree are sums over the files (map iteration order must not matter) ----
+//@ specdef payeeName(t ast.Transaction) string := ite(t.Payee == "", t.Description, t.Payee)
+//@ specdef pcnt(txs []ast.Transaction, i int, k string) int := ite(i <= 0, 0, pcnt(txs, i - 1, k) + ite(payeeName(txs[i - 1]) == k && k != "", 1, 0))
+//@ lemma pcnt_nonneg(txs []ast.Transaction, i int, k string) induct i := {pcnt(txs, i, k)} pcnt(txs, i, k) >= 0
+
+// The usage count of a payee in one file is the number of its transactions that carry the name.
+//@ func CollectPayeeCounts
+//@   props C15 C16
+//@   requires journal != nil
+//@   ensures [fresh] result != nil && fresh(result)
+//@   ensures [C16:counts] forall k string :: {result[k]} result[k] == pcnt(journal.Transactions, len(journal.Transactions), k)
+//@   ensures [C16:dom] forall k string :: {has(result, k)} has(result, k) <==> pcnt(journal.Transactions, len(journal.Transactions), k) > 0
+//@   loop 1 invariant counts != nil && fresh(counts)
+//@   loop 1 invariant forall k string :: {counts[k]} counts[k] == pcnt(journal.Transactions, rangeindex + 1, k)
+//@   loop 1 invariant forall k string :: {has(counts, k)} has(counts, k) <==> pcnt(journal.Transactions, rangeindex + 1, k) > 0
+//@   loop 1 decreases len(journal.Transactions) - rangeindex
+
+// Over the include tree the count of a name is at least its count in the root file plus its count in any one included
+// file (the exact statement is the sum over the files; the sum over the keys of a map is outside the contract language,
+// the order-independence obligation of C15 covers the rest: an overwrite instead of an addition does not commute).
+//@ func collectPayeeCountsFromResolved
+//@   props C15 C16
+//@   requires resolved != nil && (forall p string :: {resolved.Files[p]} has(resolved.Files, p) ==> resolved.Files[p] != nil)
+//@   ensures [fresh] result != nil && fresh(result)
+//@   ensures [C16:count_ge_root_plus_file] resolved.Primary != nil ==> forall p string, k string :: {resolved.Files[p]; result[k]} has(resolved.Files, p) ==> result[k] >= pcnt(resolved.Primary.Transactions, len(resolved.Primary.Transactions), k) + pcnt(resolved.Files[p].Transactions, len(resolved.Files[p].Transactions), k)
+//@   ensures [C16:count_ge_file] forall p string, k string :: {resolved.Files[p]; result[k]} has(resolved.Files, p) ==> result[k] >= pcnt(resolved.Files[p].Transactions, len(resolved.Files[p].Transactions), k)
+//@   loop 1 modifies counts[*]
+//@   loop 1 invariant counts != nil && fresh(counts)
+//@   loop 1 invariant forall k string :: {counts[k]} counts[k] >= 0 && (resolved.Primary != nil ==> counts[k] >= pcnt(resolved.Primary.Transactions, len(resolved.Primary.Transactions), k))
+//@   loop 1 invariant forall p string, k string :: {resolved.Files[p]; counts[k]} iterseen[p] ==> counts[k] >= pcnt(resolved.Files[p].Transactions, len(resolved.Files[p].Transactions), k) + ite(resolved.Primary != nil, pcnt(resolved.Primary.Transactions, len(resolved.Primary.Transactions), k), 0)
+//@   closure 1 loop 1 modifies counts[*]
+//@   closure 1 loop 1 invariant counts != nil && counts == old(counts)
+//@   closure 1 loop 1 invariant forall k string :: {counts[k]} counts[k] == old(counts[k]) + ite(iterseen[k], itermap[k], 0)
+//@   closure 1 loop 1 invariant forall k string :: {iterseen[k]} iterseen[k] ==> has(itermap, k)
+//@   closure 1 loop 1 invariant forall k string :: {has(counts, k)} has(counts, k) <==> old(has(counts, k)) || iterseen[k]
